@@ -119,16 +119,16 @@ func init() {
 		"fat32 writeBootSector/writeFsis/SetLabel (reached through function-valued hooks)",
 	}
 	propAssumptions["C18"] = []string{
-		"scope: the functions listed under functions_under_contract - decoders that take bytes straight from the device and the three FAT Read functions; their inputs are unconstrained except for what the caller itself checked (stated as requires and proved at the call sites under contract)",
+		"scope: the functions listed under functions_under_contract - decoders and small readers that take bytes straight from the device, the three FAT Read functions, FAT File.Read; their inputs are unconstrained except for what the caller itself checked (stated as requires and proved at the call sites under contract; call sites in functions that are not under contract, or in nosafety functions, are unchecked and listed in trusted_base)",
 		"block size / volume size / start offset parameters come from the caller, not from the image (size < 2^50)",
-		"foreign code called by the decoders (encoding/binary, regexp, fmt, strings, unicode/utf16) does not panic",
-		"allocation bound: each make() in fat12/16/32.Read is bounded by the stated volume size (or by 2^31/2^32 when the size is given as 0 = unknown); table constructors are bounded by their byte-size argument",
+		"foreign code called by the decoders (encoding/binary, regexp, fmt, strings, unicode/utf16, compress/*) does not panic",
+		"allocation bound: each make() in fat12/16/32.Read and iso9660.loadJoliet is bounded by the stated volume size (or by 2^31/2^32 when the size is given as 0 = unknown); table constructors are bounded by their byte-size argument",
+		"functions marked nonil: pointer and interface values they receive from their (unverified) callers are not nil",
 	}
 	propNotDecided["C18"] = []string{
-		"listing directories and reading files of a damaged image (FAT cluster-chain walks incl. cycles - D17, FAT/iso9660/ext4/squashfs directory and inode decoding loops, squashfs metadata and fragment readers)",
-		"iso9660.Read, ext4.Read, squashfs.Read as wholes; iso9660 parseDirEntries/parseDirEntriesJoliet, supplementary volume descriptor, SUSP/Rock Ridge extension parsers",
-		"termination ('no endless loop') except where a loop carries a variant (none of the loops in this check read their bound from the image without a check)",
-		"total allocation over a call",
+		"iso9660.Read, ext4.Read, squashfs.Read as wholes; iso9660 parseDirEntries/parseDirEntriesJoliet/parseDirEntry, supplementary volume descriptor; ext4 parseExtents, parseDirEntriesLinear, parseDirEntriesHashed, inodeFromBytes (safety), group descriptor and journal decoders; squashfs File.Read, readBlock, readMetaBlock, block cache",
+		"termination ('no endless loop') except where a variant is stated (FAT chain walk, ext4 extent-tree depth); the continuation-area loop of iso9660.parseDirEntry (D39) and the hashed-directory walk (D52) are guarded by replays only",
+		"total allocation over a call; decompressed sizes (D43 is guarded by its replay only)",
 	}
 	propAssumptions["C01"] = []string{
 		"scope: fat12 package write path (shared by FAT12/16/32): File.Write, allocateSpace, writeDirectoryEntries, plus the handle contract of File.Read/Seek/Close (C10)",
